@@ -6,5 +6,5 @@ From IronCalc Require Import Base.Prelude Base.Dec Codec.Column Codec.RefA1 Synt
 Extraction Language OCaml.
 Extraction "model_c33.ml"
   Displace.displace_text Displace.displace_range_text Displace.cell_map
-  Metadata.link_map Metadata.link_block_move Metadata.cf_sqref Metadata.cf_part Metadata.cf_anchor
+  Metadata.link_map Metadata.link_block_move Metadata.cf_sqref Metadata.cf_entry Metadata.cf_on_sheet Metadata.cf_part Metadata.cf_anchor
   Metadata.cf_defect Metadata.cf_cut_sqref Metadata.rel_range.
